@@ -1169,7 +1169,7 @@ func checkCallback(c *checkCtx) {
 	}
 	// ---- directed: a user goroutine's Close() waits for the ending callback goroutine while the event loop starts the next one
 	if ownViolations == 0 {
-		iters, reached, viol, inc := cbkDirectedCloseVsRestart(c, c.pick(2000, 30000))
+		iters, reached, viol, inc := cbkDirectedCloseVsRestart(c, c.pick(8000, 60000))
 		c.eval(1)
 		c.count("directed close-vs-restart iterations (Close waiting for the ending callback goroutine while a message arrives)", int64(iters))
 		c.count("directed close-vs-restart iterations in which all three parties were held at their points", int64(reached))
